@@ -155,6 +155,10 @@ def design_check(ctx):
         r = vlib.run_tlc(ctx, "DMEnc", cfg, workers=1, timeout=1200, consts={"MaxLen": "18"},
                          args=["-simulate", "num=%d" % (60 if ctx.quick else 6000), "-depth", "80", "-seed", str(ctx.seed)])
         cands += [(o["msg"], cfg) for o in vlib.tlc_printed(r)]
+    # digits, an extended character and a space under MAX_SIZE 14x14, to length 7: the smallest messages on which the look-ahead's
+    # choice (Base 256) needs more codewords than ASCII and the symbol-size feedback refuses (known finding C02-lookahead-...)
+    r = vlib.run_tlc(ctx, "DMEnc", "MC_DMEnc_max14", workers=vlib.NCPU, timeout=3000, consts={"MaxLen": "7", "Alphabet": "{49, 233, 32}"}, xmx="8g")
+    cands += [(o["msg"], "MC_DMEnc_max14") for o in vlib.tlc_printed(r)]
     seen, ev = set(), []
     for m, cfg in cands:
         k = (tuple(m), cfg)
@@ -169,7 +173,11 @@ def design_check(ctx):
 def preds():
     # call-site classification of a refusal, from the library's own error text (used only to match known findings)
     return {"x12_illegal_character_refusal": lambda e: e.get("cwerr") == 1 and "Illegal character" in e.get("cwmsg", "")
-            and "refusal only when it does not fit" in e.get("failed", ())}
+            and "refusal only when it does not fit" in e.get("failed", ()),
+            # the refusal was PREDICTED by the encoder model (spec/DMEnc.tla reaches pc = "error" on this message under these hints although
+            # the plain ASCII encodation fits) and is raised where the model raises it: the symbol-size feedback of a mode encoder
+            "refusal_predicted_by_encoder_model": lambda e: e.get("tag") == "model-candidate" and e.get("cwerr") == 1
+            and "Can't find a symbol arrangement" in e.get("cwmsg", "") and e.get("failed") == ["refusal only when it does not fit"]}
 
 
 def run(ctx):
@@ -189,4 +197,5 @@ def run(ctx):
                        trusted=["TLC", "spec/DMHL.tla reference decoder (ISO/IEC 16022 clause 5.2)", "spec/DMTables.tla"])
 
 
-replay = dmlib.replay
+def replay(ctx, path):
+    return dmlib.replay(ctx, path, preds=preds())
